@@ -45,8 +45,10 @@ class Wal:
     def eval(self, sexpr, **args):
         '''Evaluate the WAL expression sexpr and run passes'''
         # put passed arguments into context
+        shadowed = {}
         for name, val in args.items():
             if self.eval_context.global_environment.is_defined(name):
+                shadowed[name] = self.eval_context.global_environment.read(name)
                 self.eval_context.global_environment.write(name, val)
             else:
                 self.eval_context.global_environment.define(name, val)
@@ -64,7 +66,10 @@ class Wal:
 
         # remove passed arguments from context
         for name, val in args.items():
-            self.eval_context.global_environment.undefine(name)
+            if name in shadowed:
+                self.eval_context.global_environment.write(name, shadowed[name])
+            else:
+                self.eval_context.global_environment.undefine(name)
 
         return res
 
